@@ -374,6 +374,30 @@ func c06Readers(r *zsim.Run) {
 		}
 		return
 	}
+	// in some runs the first cache read of the key is held for 20ms and then answered with an error: the readers
+	// that have joined by then share that error; whoever reads afterwards starts afresh - one query at a time still
+	firstFails := r.Fault.Intn(3) == 0
+	if firstFails {
+		gets := 0
+		for _, s := range e.srvs {
+			s.Stall = func(cmd string, args []string) time.Duration {
+				if cmd == "GET" && gets == 0 {
+					return 20 * time.Millisecond
+				}
+				return 0
+			}
+			s.FailReply = func(cmd string, args []string) string {
+				if cmd == "GET" {
+					gets++
+					if gets == 1 {
+						r.FaultFired("redis-error-reply")
+						return "ERR injected"
+					}
+				}
+				return ""
+			}
+		}
+	}
 	for i := 0; i < n; i++ {
 		i := i
 		r.Go(fmt.Sprintf("reader%d", i), func() {
@@ -383,6 +407,10 @@ func c06Readers(r *zsim.Run) {
 			}
 			row, err := e.queryPK(id, time.Duration(o.Intn(10))*time.Millisecond)
 			r.Logf("reader%d -> %+v %v", i, row, err)
+			if firstFails && err != nil && strings.Contains(err.Error(), "ERR injected") {
+				r.Probe("reader_got_the_shared_cache_error")
+				return
+			}
 			e.checkRead("concurrent QueryRow", row, err, id)
 		})
 	}
@@ -494,6 +522,41 @@ func c06Faults(r *zsim.Run) {
 			return
 		}
 		e.advance(75 * time.Second) // let stalled commands drain and the wrapper's breaker forget
+	}
+	if o.Intn(3) == 0 {
+		// a read through a unique index whose index key is cached: Redis fails on the second read of the same call,
+		// the one for the primary key - an error, never a fall-through to the database
+		name := o.Intn(2)
+		pid := name + 100 + e.idBase
+		e.db[pid] = 1
+		if _, err := e.queryIdx(name); err != nil {
+			r.Failf("harness-warm-up", "index read without any fault: %v", err)
+			return
+		}
+		pk := pkKey(pid)
+		if hs := e.holder(pk); hs != nil {
+			before, beforeIdx := e.queries[pk], e.queries[idxKey(name)]
+			hs.FailReply = func(cmd string, args []string) string {
+				if cmd == "GET" && len(args) > 0 && args[0] == pk {
+					r.FaultFired("redis-error-reply")
+					return "ERR injected"
+				}
+				return ""
+			}
+			row, err := e.queryIdx(name)
+			hs.FailReply = nil
+			r.Logf("index read with the primary-key read failing -> %+v %v", row, err)
+			if err == nil || err == sql.ErrNoRows {
+				r.Failf("cache-failure-hidden", "Redis failed on the primary-key read of an index query but QueryRowIndex returned (%+v, %v) instead of the cache error", row, err)
+				return
+			}
+			if e.queries[pk] != before || e.queries[idxKey(name)] != beforeIdx {
+				r.Failf("cache-failure-falls-through", "Redis failed on the primary-key read of an index query and the read went on to query the database")
+				return
+			}
+			r.Probe("index_read_primary_fault")
+			e.advance(75 * time.Second)
+		}
 	}
 	// a write whose cache delete fails
 	faultFor := zsim.Pick(f, 500*time.Millisecond, 3*time.Second, 30*time.Second, 4*time.Minute, 30*time.Minute)
